@@ -353,9 +353,10 @@ def check_C10(ctx):
     ctx.design("MCOwnership", own_cfg("revs", 2, ["I_C10"]), "own-revs")
     if not q:
         ctx.design("MCHistory", hist_cfg(3, ["asc", "ties"], [0, 3, 5], [0], ["I_C10"]), "history")
-    sh1, _ = snap_trace(ctx, "own-pods", "own-pods", 2, 2, 5, 40000 if q else 0, ["P_C10"], 10)
-    sh2, _ = snap_trace(ctx, "own-revs", "own-revs", 2, 2, 5, 30000 if q else 0, ["P_C10"], 11)
+    sh1, _ = snap_trace(ctx, "own-pods", "own-pods", 2, 2, 5, 25000 if q else 0, ["P_C10"], 10)
+    sh2, _ = snap_trace(ctx, "own-revs", "own-revs", 2, 2, 5, 15000 if q else 0, ["P_C10"], 11)
     sh3, _ = snap_trace(ctx, "history", "history", 2, 2, 5, 20000 if q else 400000, ["P_C10"], 12)
+    snap_trace(ctx, "adopt", "adopt", 2, 2, 5, 0, ["P_C10"], 14)        # several orphans at once: enumerated completely
     if not q:
         snap_trace(ctx, "own-pods3", "own-pods3", 2, 2, 5, 300000, ["P_C10"], 13)
         ctx.exhaustive = True
